@@ -12,4 +12,5 @@ Extraction "model.ml" pstep sstep wf_from outstanding
   settle deliver reply poll_sup poll_repl_c client_cmd client_conn add_sec init_cnode get_cn put_cn cn_set_node get_sess n_set_clock
   run_par new_thread dflush_crash dflush_plan is_sc
   mstart mcmd mconnect mpoll mflush mshutdown mcrash decode_rec keymap_bytes mtake_before is_msc mf_empty apply_mops dedup_snap drop_link resync
-  s3_flush s3_restart stub0.
+  s3_flush s3_restart stub0
+  ecmd edeliver ereply esettle tick_frames is_nosender.
